@@ -62,6 +62,8 @@ structure Written (rnd : α → Int) (st : Stages α) (r : Req α) (names : List
     w.1 = p.1 ∧ Qats.Pipeline.get rnd st p.2.t p.2.x o = .ok (w.2.1, w.2.2)) (names.zip sel) items
   /-- the final comparison passed -/
   verified : verified items = true
+  /-- the processed series hold at least one sample -/
+  samples : noSamples items = false
   /-- the options are the caller's, or (forced) the caller's plus resampling to the constructed common time array -/
   options : ∃ ss tc, summaries sel = some ss ∧ checkTimeArrays ss r.opts.twin r.opts.resample = .ok tc ∧
     ((o = r.opts ∧ (tc.isCommon = true ∨ r.opts.resample.isSome = true)) ∨
@@ -130,13 +132,18 @@ theorem quiet_append {l r : List (Effect α)} (hl : ∀ f ∈ l, f.quiet = true)
 
 theorem stageWrite_outcome (rnd : α → Int) (st : Stages α) (r : Req α) (names : List Str) (sel : List (Entry α))
     (pre : List (Effect α)) (hq : ∀ f ∈ pre, f.quiet = true) (o : Opts α) (items : List (Str × List α × List α))
-    (hw : verified items = true → Written rnd st r names sel o items) :
+    (hw : verified items = true → noSamples items = false → Written rnd st r names sel o items) :
     Outcome rnd st r names sel (stageWrite r pre items) := by
   unfold stageWrite
   cases hv : verified items with
   | false => exact .refused pre _ hq
   | true =>
-    simp only [Bool.not_true, Bool.false_eq_true, if_false]
+   simp only [Bool.not_true, Bool.false_eq_true, if_false]
+   cases hn : noSamples items with
+   | true => exact .refused pre _ hq
+   | false =>
+    replace hw := fun h => hw h hn
+    simp only [Bool.false_eq_true, if_false]
     cases hx : r.ext with
     | other => exact .refused pre _ hq
     | ts =>
@@ -174,7 +181,7 @@ theorem stageProcess_outcome (rnd : α → Int) (st : Stages α) (r : Req α) (n
     cases res with
     | error e => exact .refused _ _ hqt
     | ok items =>
-      exact stageWrite_outcome rnd st r names sel _ hqt o items (fun hv => ⟨hp2 items rfl, hv, ho⟩)
+      exact stageWrite_outcome rnd st r names sel _ hqt o items (fun hv hn => ⟨hp2 items rfl, hv, hn, ho⟩)
 
 theorem stageDecide_outcome (rnd : α → Int) (st : Stages α) (r : Req α) (names : List Str) (sel : List (Entry α))
     (pre : List (Effect α)) (hq : ∀ f ∈ pre, f.quiet = true) (ss : List (Summary α)) (hss : summaries sel = some ss)
